@@ -32,6 +32,14 @@
 (* soon as the remote child is known to be gone (must be rejected by C04_Stable: a later    *)
 (* is_alive()/wait() contradicts the True).                                                 *)
 (*                                                                                        *)
+(* "waitL": wait(timeout) with a LONG timeout (class "t" as well; longer than any deadline   *)
+(* hidden in the machinery).  HiddenDeadline = TRUE: the control socket keeps the connect   *)
+(* timeout of the handshake, so a control request that takes longer than it is read as      *)
+(* "connection closed, child dead" (must be rejected by C04_Truthful: a later terminate      *)
+(* answers True while the remote child runs).  StaleAliveAfterKill = TRUE: ProcessWorker.    *)
+(* terminate does not re-read the child's liveness after kill() + join() (must be rejected   *)
+(* by C04_Truthful: False although the child is dead at that moment).                        *)
+(*                                                                                        *)
 (* Target behaviour "unreb": the target ends by itself shortly after the start with an      *)
 (* outcome that cannot be rebuilt on the parent side (an exception class whose constructor *)
 (* needs arguments).  RebuildRaises = TRUE: ProcessWorker.wait lets the TypeError of the    *)
@@ -47,7 +55,7 @@
 (* Fix = {} is the code as it is.                                                         *)
 EXTENDS Naturals, Sequences, FiniteSets, TLC, LifecycleProps
 
-CONSTANTS Fix, MaxOps, Free, Hist, Cases, ReportMeansDead, RemDeadMeansDead, CacheDeadOnFalse, RebuildRaises
+CONSTANTS Fix, MaxOps, Free, Hist, Cases, ReportMeansDead, RemDeadMeansDead, CacheDeadOnFalse, RebuildRaises, StaleAliveAfterKill, HiddenDeadline
 
 VARIABLES case,   \* the scenario (constant after Init): [id, kind, pers, beh, start, ops]
           c,      \* child process/thread
@@ -62,9 +70,10 @@ Remote  == Kind = "remote"
 
 OpT(o) == IF o \in {"wait0", "term0", "term0F"} THEN "0" ELSE "t"
 OpForce(o) == o \in ForceOps
-OpN(o) == CASE o \in {"wait0", "waitT"} -> "wait" [] o \in {"term0", "termT", "term0F", "termTF"} -> "term"
+OpN(o) == CASE o \in {"wait0", "waitT", "waitL"} -> "wait" [] o \in {"term0", "termT", "term0F", "termTF"} -> "term"
             [] OTHER -> o
 Alphabet == IF Kind = "thread" THEN {"wait0", "waitT", "term0", "termT", "alive", "close"}
+            ELSE IF Kind = "remote" THEN {"wait0", "waitT", "waitL", "term0", "termT", "term0F", "termTF", "alive", "close"}
             ELSE {"wait0", "waitT", "term0", "termT", "term0F", "termTF", "alive", "close"}
 
 Init ==
@@ -262,12 +271,16 @@ PStep ==
        [] p.pc = "t_join3" ->
           /\ Dead \/ PTimeout(T)
           /\ GotoW("t_ret", ~Dead /\ T = "t") /\ UNCHANGED <<c, s>>
-       [] p.pc = "t_ret" -> Ret(RepNow, Dead) /\ UNCHANGED <<c, s>>
+       [] p.pc = "t_ret" -> (IF StaleAliveAfterKill /\ c.sigK THEN Ret("F", FALSE) ELSE Ret(RepNow, Dead)) /\ UNCHANGED <<c, s>>
        \* ---- wait / terminate, remote kind, parent side (remote.py:223-275, 277-358) ----
        [] p.pc = "x_send" ->
           IF s.rsock THEN s' = [s EXCEPT !.rmsg = N] /\ Goto("x_recv") /\ UNCHANGED c
           ELSE p' = [p EXCEPT !.remDead = TRUE, !.pc = "x_joinF"] /\ UNCHANGED <<c, s>>      \* ConnectionClosedError: assume dead
-       [] p.pc = "x_recv" ->           \* recv_msg on the control socket: NO timeout in the code
+       [] p.pc = "x_recv" /\ HiddenDeadline /\ p.cur = "waitL" /\ s.rrep = "none" /\ s.rpc = "r_wjoin" /\ QuietChild ->
+          \* the forgotten socket timeout fires before the server's answer: read as "connection closed"
+          p' = [p EXCEPT !.remDead = TRUE, !.pc = "x_joinF", !.waited = TRUE] /\ s' = [s EXCEPT !.rsock = FALSE] /\ UNCHANGED c
+       [] p.pc = "x_recv" /\ ~(HiddenDeadline /\ p.cur = "waitL" /\ s.rrep = "none" /\ s.rpc = "r_wjoin" /\ QuietChild) ->
+          \* recv_msg on the control socket: NO timeout in the code
           /\ s.rrep # "none" \/ ~s.rsock
           /\ IF s.rrep # "none"
              THEN /\ s' = [s EXCEPT !.rrep = "none"]
